@@ -20,7 +20,7 @@ RULE = (
     "non-trivial = >=2 plates of unequal sizes or >=4 thetas"
 )
 ASSUMPTIONS = ["means bounded by a few hundred so squares stay finite", "scalar reference uses math.fsum and a stable log-sum-exp"]
-REQUIRED = {"production_size_plates": {"quick": 40, "thorough": 800}, "plate_scores_vs_reference": {"quick": 10000, "thorough": 200000}, "metamorphic_checks": {"quick": 10000, "thorough": 200000}, "scorer_entry_runs": {"quick": 800, "thorough": 15000}, "all_zero_distance_cases": {"quick": 10, "thorough": 200}}
+REQUIRED = {"scorer_runs_on_overlapping_views": {"quick": 10, "thorough": 150}, "production_size_plates": {"quick": 40, "thorough": 800}, "plate_scores_vs_reference": {"quick": 10000, "thorough": 200000}, "metamorphic_checks": {"quick": 10000, "thorough": 200000}, "scorer_entry_runs": {"quick": 800, "thorough": 15000}, "all_zero_distance_cases": {"quick": 10, "thorough": 200}}
 N_CFG = {"quick": 960, "thorough": 16000}
 TOL = 1e-9
 
@@ -258,7 +258,7 @@ def run_shard(rec, tier, seed, shard, nshards):
             rec.sample({"n_thetas": T, "plate_sizes": sizes, "heteroscedastic_scores": [float(x) for x in het], "reference": [float(x) for x in ref_het]})
 
     # ---------------- real posterior samples through the scorer (homoscedastic in practice)
-    for _ in range(2 if tier == "quick" else 20):
+    for _ in range(6 if tier == "quick" else 40):
         kw = gen.realistic_screen_kwargs(rng, n_rows=(6, 30), n_plates=(2, 6), observed="none")
         screen = Screen(**kw)
         sp = ExperimentSpace.from_screen(screen)
@@ -274,6 +274,13 @@ def run_shard(rec, tier, seed, shard, nshards):
             for j in range(i):
                 cdm.add_value(i, j, float(d[i, j]))
         plates = {int(p.plate_id): p for p in screen.plates}
+        if len(plates) >= 3 and rng.random() < 0.6:
+            # what score_chunk hands the scorer when a batch exists: every candidate united with the batch plates, so
+            # the views OVERLAP (the batch rows belong to all of them) and are not whole plates any more
+            bid = int(rng.choice(sorted(plates)))
+            bview = plates[bid]
+            plates = {pid: pl.combine(bview) for pid, pl in plates.items() if pid != bid}
+            rec.count("scorer_runs_on_overlapping_views")
         try:
             res = G.GaussianDBALScorer(max_chunk=int(rng.choice([1, 2, 50])), max_triples=5000).score(plates=plates, distance_matrix=cdm, samples=holder, rng=grng(), progress_bar=False)
         except Exception as e:
